@@ -23,7 +23,6 @@
 (*        WireOK             Python's encoding JSON-equal to Go's up to Norm           *)
 EXTENDS Semantics
 
-FOptDef(n, t, d) == Fld(n, t, FALSE, FALSE, d)      \* optional field with a declared default
 
 RECURSIVE Resolve(_, _)
 Resolve(S, t) == IF t.k = "ref" THEN Resolve(S, S[t.name]) ELSE t
